@@ -72,7 +72,9 @@ def plan(tier, seed):
     omenu = [("a",), ("a", "b"), ("b",), ("b", "a")]
     umenu = [("a",), ("a", "b"), ("b",)]
     pp = poly_shape_pairs(3, 3)
-    vecs = [core[0]] if tier == "quick" else [core[0], core[2], core[4]]
+    # (0,1,2,1,1): a transfer as dear as a duplication plus a loss (a bound that trades one transfer for one
+    # duplication and one loss is then just not sound)
+    vecs = [core[0], (0, 1, 2, 1, 1)] if tier == "quick" else [core[0], core[2], core[4], (0, 1, 2, 1, 1)]
     out += L.split_plan("e2e-ordered:3x3", pp, omenu, 40, {"mode": "e2e", "algo": "ext_spfs", "costs": vecs})
     out += L.split_plan("e2e-unordered:3x3", pp, umenu, 40, {"mode": "e2e", "algo": "superdtl", "costs": vecs})
     # operation histories: ONE multifurcating input object per shape pair, solved again and again after in-place edits of
@@ -96,9 +98,15 @@ COLORS = ["FF0000", "00FF00", "0000FF"]
 
 
 def named_tree(shape, offset=0, unnamed=False):
-    """-> (ete tree, nested tuple of leaf names, {clade: (name, color or None)}); unnamed: every ancestor nameless"""
+    """-> (ete tree, nested tuple of leaf names, {clade: (name, color or None)}); unnamed: every ancestor nameless;
+    unnamed == "digits": every node named by a small decimal integer, leaves in descending order"""
     t = T(shape)
     names = {v: (f"L{v}" if not t.children[v] else ("" if unnamed else f"N{v}")) for v in range(t.n)}
+    if unnamed == "digits":
+        nl = len(t.leaves)
+        names = {v: (str(nl - 1 - t.leaves.index(v)) if not t.children[v] else str(nl + t.internal.index(v))) for v in range(t.n)}
+        if t.internal:
+            names[t.internal[-1]] = "1x"   # an ancestor whose name starts like a leaf's
     feats = {}
     for i, v in enumerate(t.internal):
         if (i + offset) % 2 == 0:
@@ -371,6 +379,12 @@ def run_shard(shard, tier, seed):
                 if bad:
                     bad = "with unnamed ancestors: " + bad
                     case = dict(case, unnamed=True)
+            if not bad:
+                n_eval += 1
+                bad = check_binarize(shape, off, unnamed="digits")
+                if bad:
+                    bad = "with nodes named by small integers: " + bad
+                    case = dict(case, unnamed="digits")
             if not T(shape).is_binary():
                 nt += 1
             if bad:
